@@ -739,7 +739,7 @@ def _replay_loop(rep, verbose):
     cls, mod = get_class(family, symbolic=False)
     base = loader.real("_base_gemini")
     rng = np.random.default_rng(3)
-    n, d, Kc = dm["n"], dm["d"], dm["K"]
+    n, d, Kc = max(dm["n"], dm["K"]), dm["d"], dm["K"]      # the public fit needs at least n_clusters samples
     X = rng.normal(size=(n, d if BASE[family] not in ("cat", "kernelrim") else max(d, 2) if BASE[family] == "cat" else 2)) * 1.3
     records = []
 
@@ -761,7 +761,8 @@ def _replay_loop(rep, verbose):
                 saved[(m, nm)] = getattr(m, nm)
                 setattr(m, nm, Rec)
     try:
-        kw = dict(n_clusters=Kc, max_iter=1, solver=rep.get("solver", "adam"), random_state=0)
+        # constrained pairs meet (or are split across) batches differently in every epoch: several epochs for the decorated models
+        kw = dict(n_clusters=Kc, max_iter=(8 if rep.get("mlcl") else 1), solver=rep.get("solver", "adam"), random_state=0)
         if BASE[family] != "cat":
             kw["batch_size"] = rep.get("batch_size")
         if BASE[family] in ("mlp", "smlp"):
